@@ -92,7 +92,33 @@ var mutRunes = []rune{'a', ' ', '\n', '\t', '\r', ';', '{', '}', '"', '\'', '\\'
 // Mutate applies one character-level mutation.
 func Mutate(t *rapid.T, text string) string {
 	rs := []rune(text)
-	switch rapid.IntRange(0, 3).Draw(t, "mutation") {
+	switch rapid.IntRange(0, 5).Draw(t, "mutation") {
+	case 4: // put quotes around a punctuation character or a '+' (the token then is a string, not an operator)
+		var at []int
+		for i, r := range rs {
+			if r == '+' || r == ';' || r == '{' || r == '}' {
+				at = append(at, i)
+			}
+		}
+		if len(at) == 0 {
+			return text
+		}
+		i := at[rapid.IntRange(0, len(at)-1).Draw(t, "quote-at")]
+		q := rapid.SampledFrom([]string{"\"", "'"}).Draw(t, "quote-kind")
+		return string(rs[:i]) + q + string(rs[i]) + q + string(rs[i+1:])
+	case 5: // drop one quote character pair around a token: "x" -> x
+		var at []int
+		for i, r := range rs {
+			if r == '"' || r == '\'' {
+				at = append(at, i)
+			}
+		}
+		if len(at) < 2 {
+			return text
+		}
+		k := rapid.IntRange(0, len(at)-2).Draw(t, "unquote-at")
+		a, b := at[k], at[k+1]
+		return string(rs[:a]) + string(rs[a+1:b]) + string(rs[b+1:])
 	case 0: // delete
 		if len(rs) == 0 {
 			return text
